@@ -47,6 +47,10 @@ def main():
                 rec = {"timeout": True}
             except BaseException as e:  # noqa
                 signal.alarm(0)
+                if isinstance(getattr(e, "__cause__", None), CaseTimeout):
+                    out.write(core.dumps({"timeout": True, "case_id": spec.get("case_id"), "spec": spec, "violations": []}) + "\n")
+                    out.flush()
+                    continue
                 tb = traceback.extract_tb(e.__traceback__)
                 in_repo = bool(tb) and os.path.abspath(tb[-1].filename).startswith(repo + os.sep)
                 txt = "".join(traceback.format_exception(type(e), e, e.__traceback__))
